@@ -148,9 +148,10 @@ func writeEvidence(prop, tier string, seed int, reg *Registry, ld *Loaded, runs 
 		"wall_s":      round2(wall),
 		"violations":  violations,
 	}
-	os.MkdirAll(filepath.Join(verifDir, "evidence"), 0o755)
+	evDir := envOr("VERIF_EVIDENCE_DIR", filepath.Join(verifDir, "evidence"))
+	os.MkdirAll(evDir, 0o755)
 	b, _ := json.MarshalIndent(ev, "", " ")
-	if err := os.WriteFile(filepath.Join(verifDir, "evidence", prop+".json"), b, 0o644); err != nil {
+	if err := os.WriteFile(filepath.Join(evDir, prop+".json"), b, 0o644); err != nil {
 		fmt.Fprintln(os.Stderr, "writing evidence:", err)
 	}
 }
